@@ -160,6 +160,13 @@ def payload(seq, size):
 
 
 def run_case(case):
+    if 'fuzz_hex' in case:
+        from ..fuzz import c13_target
+        try:
+            c13_target.run(bytes.fromhex(case['fuzz_hex']))
+        except c13_target.TargetFailure as e:
+            return Result(nontrivial=True, classes=['fuzz-input'], violation=('fuzz:' + str(e).split(':')[0][:60], '%s; input %s' % (e, case['fuzz_hex'][:200])), sample=case)
+        return Result(nontrivial=True, classes=['fuzz-input'], violation=None, sample=case)
     install()
     import pysyncobj.tcp_connection as T
     from pysyncobj.poller import POLL_EVENT_TYPE as EV
@@ -398,6 +405,69 @@ def shard(seed, n, tier):
     return stats
 
 
+def fuzz_campaign(tier, seed, stats):
+    """Coverage-guided byte-level fuzzing of the receiver (atheris/libFuzzer) with the oracle inside the target.
+    Seed corpus: valid frames, frames holding zlib(crafted non-pickles), raw garbage; plus an empty-corpus run."""
+    import glob
+    import os
+    import shutil
+    import subprocess
+    import sys
+    import zlib
+    try:
+        sys.path.insert(0, env.DEPS)
+        import atheris  # noqa
+    except Exception as e:
+        stats.inconclusive.append('atheris not available (%r): byte-level fuzzing skipped' % (e,))
+        return
+    base = os.path.join(env.tmpdir(), 'c13-fuzz')
+    shutil.rmtree(base, ignore_errors=True)
+    jobs = [('seeded', True), ('empty', False)] if tier == 'quick' else [('seeded%d' % i, True) for i in range(10)] + [('empty%d' % i, False) for i in range(6)]
+    procs = []
+    for i, (name, seeded) in enumerate(jobs):
+        corpus = os.path.join(base, name, 'corpus')
+        art = os.path.join(base, name, 'artifacts') + os.sep
+        os.makedirs(corpus)
+        os.makedirs(art)
+        if seeded:
+            crafted = [b'', b'\xff', b'0.', b'.', b'cno_such_module\nX\n.', b'(I1\nI2\nt', b'\x80\x02]q\x00(K\x01', b'I99999999999999999999\n.', b'\x80\x02K\x01.']
+            for k, body in enumerate(crafted):
+                z = zlib.compress(body, 3)
+                for hdr in (bytes([k % 4, k % 5, k % 5]),):
+                    with open(os.path.join(corpus, 'z%d' % k), 'wb') as f:
+                        f.write(hdr + struct.pack('i', len(z)) + z)
+            with open(os.path.join(corpus, 'neg'), 'wb') as f:
+                f.write(bytes([2, 1, 1]) + struct.pack('i', -3) + b'abcdef')
+            with open(os.path.join(corpus, 'huge'), 'wb') as f:
+                f.write(bytes([1, 0, 2]) + struct.pack('i', 0x7fffffff) + b'abc')
+        args = [sys.executable, '-m', 'pvf.fuzz.c13_fuzz', '-seed=%d' % (seed * 100 + i), '-max_len=400', '-artifact_prefix=' + art, '-print_final_stats=1']
+        args += ['-runs=40000'] if tier == 'quick' else ['-max_total_time=420']
+        args.append(corpus)
+        procs.append((name, art, subprocess.Popen(args, cwd=env.VERIF, stdout=subprocess.PIPE, stderr=subprocess.STDOUT)))
+    for name, art, pr in procs:
+        out = pr.communicate()[0].decode('utf8', 'replace')
+        runs = 0
+        for line in out.splitlines():
+            if line.startswith('stat::number_of_executed_units:'):
+                runs = int(line.split(':')[-1])
+        stats.extra['fuzz_executions'] += runs
+        stats.evaluations += runs
+        crashes = sorted(glob.glob(art + 'crash-*'))
+        if crashes:
+            with open(crashes[0], 'rb') as f:
+                data = f.read()
+            case = {'fuzz_hex': data.hex()}
+            res = run_case(case)
+            stats.record(case, res)
+            if res.violation is not None and findings.match(PROP, res.violation[0]) is None:
+                stats.violations.append((res.violation[0], res.violation[1], case))
+            elif res.violation is None:
+                stats.inconclusive.append('libFuzzer reported a crash that does not reproduce in-process: %s' % out[-400:])
+        elif pr.returncode not in (0,):
+            stats.inconclusive.append('fuzz job %s exited with %r: %s' % (name, pr.returncode, out[-300:]))
+    shutil.rmtree(base, ignore_errors=True)
+
+
 def main(tier, seed, cases=None):
     t0 = time.time()
     shards, n = (4, 1500) if tier == 'quick' else (16, 40000)
@@ -405,7 +475,8 @@ def main(tier, seed, cases=None):
         n = cases
     kws = [dict(seed=seed * 1000 + i, n=n, tier=tier) for i in range(shards)]
     stats = runner.run_shards(__name__, 'shard', kws)
-    return runner.finish(PROP, LEVEL, tier, seed, stats, RULE, ASSUMPTIONS, t0)
+    fuzz_campaign(tier, seed, stats)
+    return runner.finish(PROP, LEVEL, tier, seed, stats, RULE + ' Plus a coverage-guided byte-level campaign (atheris) on the receiver: fuzz_executions counts its runs.', ASSUMPTIONS, t0)
 
 
 def replay(path):
